@@ -573,7 +573,14 @@ fn sm_replay(cases_path: &str, out_path: &str) {
         let e = pre["endian"].as_str().unwrap();
         CUR_ENDIAN.with(|c| *c.borrow_mut() = e == "be");
         let built = catch(|| -> Result<BinArchive, String> {
-            let a = build(pre)?;
+            // the pre-state is established in a different call order from case to case (per-address label order
+            // kept): internal state that depends on the order of earlier writes must not matter
+            let mut steps = steps_of(pre);
+            if i % 2 == 1 {
+                let mut r = Rng::new(seed_from_env() ^ (i as u64).wrapping_mul(0x9E37));
+                shuffle_steps(&mut steps, &mut r);
+            }
+            let a = build_with(pre, &steps)?;
             let p = sm_project(&a, e);
             if &p != pre {
                 return Err(format!("cannot establish pre-state: got {}", p));
